@@ -1,9 +1,9 @@
 SPECIFICATION Spec
 CONSTANTS
   MaxN = 4
-  BoxStride = 3
-  CatStride = 4
-  PairStride = 16
+  BoxStride = 1
+  CatStride = 1
+  PairStride = 5
   ShapeFrom = "named dims"
 CONSTRAINT Export
 INVARIANT ImplRefinesReq
